@@ -11,7 +11,7 @@ open MenpoModel.C16 MenpoModel.C16.PyX
 
 def genLjsonExporter (landmarksobject : LObj) : Except Exc Json :=
   PyX.tryE (
-      ((LObj.nPoints landmarksobject)).bind fun u0 =>
+      Except.bind ((LObj.nPoints landmarksobject)) fun u0 =>
         let landmarkdict0 := (LObj.wrap landmarksobject)
         .ok ((u0, landmarkdict0)))
     (fun s0 =>
@@ -28,18 +28,18 @@ def genLjsonExporter (landmarksobject : LObj) : Except Exc Json :=
           let lgjson0 := (tojson pointcloud0)
           let points0 := (lgjson0).points
           PyX.tryE (
-              ((rowLen0 points0)).bind fun ndim0 =>
+              Except.bind ((rowLen0 points0)) fun ndim0 =>
                 .ok (ndim0))
             (fun s1 =>
               let ndim0 := s1
               let filteredpoints0 := (List.map (fun it1 => let x0 := it1; (if ((x0).isNone) then none else x0)) (List.flatten points0))
               if ((ndim0 == (2))) then
-                let lgjson1 := ({ lgjson0 with points := (zipRows2 (takeEvery2 filteredpoints0) (takeEvery2 ((filteredpoints0).drop 1))) } : LG)
+                let lgjson1 := ({ lgjson0 with points := (transposeRows [(strideFrom filteredpoints0 0 (2)), (strideFrom filteredpoints0 (1) (2))]) } : LG)
                 let groups0 := (dictSet groups1 key0 lgjson1)
                 (none, groups0)
               else
                 if ((ndim0 == (3))) then
-                  let lgjson1 := ({ lgjson0 with points := (zipRows3 (takeEvery3 filteredpoints0) (takeEvery3 ((filteredpoints0).drop 1)) (takeEvery3 ((filteredpoints0).drop 2))) } : LG)
+                  let lgjson1 := ({ lgjson0 with points := (transposeRows [(strideFrom filteredpoints0 0 (3)), (strideFrom filteredpoints0 (1) (3)), (strideFrom filteredpoints0 (2) (3))]) } : LG)
                   let groups0 := (dictSet groups1 key0 lgjson1)
                   (none, groups0)
                 else
@@ -51,12 +51,12 @@ def genLjsonExporter (landmarksobject : LObj) : Except Exc Json :=
                 let ndim0 := (0)
                 let filteredpoints0 := (List.map (fun it1 => let x0 := it1; (if ((x0).isNone) then none else x0)) (List.flatten points0))
                 if ((ndim0 == (2))) then
-                  let lgjson1 := ({ lgjson0 with points := (zipRows2 (takeEvery2 filteredpoints0) (takeEvery2 ((filteredpoints0).drop 1))) } : LG)
+                  let lgjson1 := ({ lgjson0 with points := (transposeRows [(strideFrom filteredpoints0 0 (2)), (strideFrom filteredpoints0 (1) (2))]) } : LG)
                   let groups0 := (dictSet groups1 key0 lgjson1)
                   (none, groups0)
                 else
                   if ((ndim0 == (3))) then
-                    let lgjson1 := ({ lgjson0 with points := (zipRows3 (takeEvery3 filteredpoints0) (takeEvery3 ((filteredpoints0).drop 1)) (takeEvery3 ((filteredpoints0).drop 2))) } : LG)
+                    let lgjson1 := ({ lgjson0 with points := (transposeRows [(strideFrom filteredpoints0 0 (3)), (strideFrom filteredpoints0 (1) (3)), (strideFrom filteredpoints0 (2) (3))]) } : LG)
                     let groups0 := (dictSet groups1 key0 lgjson1)
                     (none, groups0)
                   else
@@ -67,8 +67,8 @@ def genLjsonExporter (landmarksobject : LObj) : Except Exc Json :=
                 (some (.error e_), groups1)))
       let groups1 := r0.2
       match r0.1 with
-      | some v0 =>
-          v0
+      | some v0 => (
+          v0)
       | none =>
         let ljson1 := ({ ljson0 with groups := groups1 } : LDoc)
         .ok ((dumpDoc ljson1)))
@@ -86,18 +86,18 @@ def genLjsonExporter (landmarksobject : LObj) : Except Exc Json :=
             let lgjson0 := (tojson pointcloud0)
             let points0 := (lgjson0).points
             PyX.tryE (
-                ((rowLen0 points0)).bind fun ndim0 =>
+                Except.bind ((rowLen0 points0)) fun ndim0 =>
                   .ok (ndim0))
               (fun s0 =>
                 let ndim0 := s0
                 let filteredpoints0 := (List.map (fun it1 => let x0 := it1; (if ((x0).isNone) then none else x0)) (List.flatten points0))
                 if ((ndim0 == (2))) then
-                  let lgjson1 := ({ lgjson0 with points := (zipRows2 (takeEvery2 filteredpoints0) (takeEvery2 ((filteredpoints0).drop 1))) } : LG)
+                  let lgjson1 := ({ lgjson0 with points := (transposeRows [(strideFrom filteredpoints0 0 (2)), (strideFrom filteredpoints0 (1) (2))]) } : LG)
                   let groups0 := (dictSet groups1 key0 lgjson1)
                   (none, groups0)
                 else
                   if ((ndim0 == (3))) then
-                    let lgjson1 := ({ lgjson0 with points := (zipRows3 (takeEvery3 filteredpoints0) (takeEvery3 ((filteredpoints0).drop 1)) (takeEvery3 ((filteredpoints0).drop 2))) } : LG)
+                    let lgjson1 := ({ lgjson0 with points := (transposeRows [(strideFrom filteredpoints0 0 (3)), (strideFrom filteredpoints0 (1) (3)), (strideFrom filteredpoints0 (2) (3))]) } : LG)
                     let groups0 := (dictSet groups1 key0 lgjson1)
                     (none, groups0)
                   else
@@ -109,12 +109,12 @@ def genLjsonExporter (landmarksobject : LObj) : Except Exc Json :=
                   let ndim0 := (0)
                   let filteredpoints0 := (List.map (fun it1 => let x0 := it1; (if ((x0).isNone) then none else x0)) (List.flatten points0))
                   if ((ndim0 == (2))) then
-                    let lgjson1 := ({ lgjson0 with points := (zipRows2 (takeEvery2 filteredpoints0) (takeEvery2 ((filteredpoints0).drop 1))) } : LG)
+                    let lgjson1 := ({ lgjson0 with points := (transposeRows [(strideFrom filteredpoints0 0 (2)), (strideFrom filteredpoints0 (1) (2))]) } : LG)
                     let groups0 := (dictSet groups1 key0 lgjson1)
                     (none, groups0)
                   else
                     if ((ndim0 == (3))) then
-                      let lgjson1 := ({ lgjson0 with points := (zipRows3 (takeEvery3 filteredpoints0) (takeEvery3 ((filteredpoints0).drop 1)) (takeEvery3 ((filteredpoints0).drop 2))) } : LG)
+                      let lgjson1 := ({ lgjson0 with points := (transposeRows [(strideFrom filteredpoints0 0 (3)), (strideFrom filteredpoints0 (1) (3)), (strideFrom filteredpoints0 (2) (3))]) } : LG)
                       let groups0 := (dictSet groups1 key0 lgjson1)
                       (none, groups0)
                     else
@@ -125,8 +125,8 @@ def genLjsonExporter (landmarksobject : LObj) : Except Exc Json :=
                   (some (.error e_), groups1)))
         let groups1 := r0.2
         match r0.1 with
-        | some v0 =>
-            v0
+        | some v0 => (
+            v0)
         | none =>
           let ljson1 := ({ ljson0 with groups := groups1 } : LDoc)
           .ok ((dumpDoc ljson1))
@@ -135,7 +135,7 @@ def genLjsonExporter (landmarksobject : LObj) : Except Exc Json :=
 
 def genPtsExporter (pointcloud : List (List (Option Rat))) : Except Exc (List PLine) :=
   let pts0 := pointcloud
-  ((swapAdd1 pts0)).bind fun pts1 =>
+  Except.bind ((swapAdd1 pts0)) fun pts1 =>
     let header0 := (ptsHeader (pts1).length)
     let filehandle0 := (savetxt3 header0 pts1)
     .ok (filehandle0)
@@ -143,25 +143,24 @@ def genPtsExporter (pointcloud : List (List (Option Rat))) : Except Exc (List PL
 def genPtsImporter (filepath : List PLine) (imageorigin : Bool) : Except Exc (List (List (Option Rat))) :=
   let f0 := filepath
   let lines0 := (List.map (fun it0 => let l0 := it0; l0) f0)
-  ((linesHead lines0)).bind fun line0 =>
+  Except.bind ((linesHead lines0)) fun line0 =>
     match PyX.whileLoop (filepath.length + 1) (none, line0, lines0) (fun acc0 => !((acc0.1).isSome) && (let line1 := acc0.2.1; let lines1 := acc0.2.2; (!(PLine.isOpen line1)))) (fun acc0 =>
         let line1 := acc0.2.1
         let lines1 := acc0.2.2
-        match (pop0 lines1) with
-        | .error e_ =>
-          (some (.error e_), line1, lines1)
-        | .ok tmp0 =>
-          let line0 := tmp0.1
-          let lines0 := tmp0.2
-          (none, line0, lines0)) with
+        PyX.tryE ((pop0 lines1)) (fun tmp0 =>
+            let line0 := tmp0.1
+            let lines0 := tmp0.2
+            (none, line0, lines0))
+          (fun e_ =>
+            (some (.error e_), line1, lines1))) with
     | none =>
         .error Exc.fuel
     | some r0 =>
       let line1 := r0.2.1
       let lines1 := r0.2.2
       match r0.1 with
-      | some v0 =>
-          v0
+      | some v0 => (
+          v0)
       | none =>
         let xs0 := ([] : List (Option Rat))
         let ys0 := ([] : List (Option Rat))
@@ -171,23 +170,22 @@ def genPtsImporter (filepath : List PLine) (imageorigin : Bool) : Except Exc (Li
             let ys1 := acc0.2.2
             let line0 := it0
             if (!(PLine.isClose line0)) then
-              match (PLine.first2 line0) with
-              | .error e_ =>
-                (some (.error e_), xs1, ys1)
-              | .ok tmp1 =>
-                let p0 := tmp1
-                let xpos0 := p0.1
-                let ypos0 := p0.2
-                let xs0 := (xs1 ++ [xpos0])
-                let ys0 := (ys1 ++ [ypos0])
-                (none, xs0, ys0)
+              PyX.tryE ((PLine.first2 line0)) (fun tmp1 =>
+                  let p0 := tmp1
+                  let xpos0 := p0.1
+                  let ypos0 := p0.2
+                  let xs0 := (xs1 ++ [xpos0])
+                  let ys0 := (ys1 ++ [ypos0])
+                  (none, xs0, ys0))
+                (fun e_ =>
+                  (some (.error e_), xs1, ys1))
             else
               (none, xs1, ys1))
         let xs1 := r1.2.1
         let ys1 := r1.2.2
         match r1.1 with
-        | some v0 =>
-            v0
+        | some v0 => (
+            v0)
         | none =>
           let xs0 := xs1
           let ys0 := ys1
@@ -213,7 +211,7 @@ def genLjsonImporter (table : List (Nat × String)) (filepath : Json) : Except E
 
 def genParseNull (pointslist : List (List (Option Rat))) : Except Exc (List (List (Option Rat))) :=
   let filteredpoints0 := (List.map (fun it0 => let x0 := it0; (if (x0).isNone then none else x0)) (List.flatten pointslist))
-  ((rowLen0 pointslist)).bind fun tmp0 =>
+  Except.bind ((rowLen0 pointslist)) fun tmp0 =>
   (reshapeN filteredpoints0 tmp0)
 
 def genParseV3 (lmsdict : JDoc) : Except Exc (List (String × Imported)) :=
@@ -224,54 +222,50 @@ def genParseV3 (lmsdict : JDoc) : Except Exc (List (String × Imported)) :=
       let p0 := it0
       let key0 := p0.1
       let lmsdictgroup0 := p0.2
-      match (genParseNull (lmsdictgroup0).points) with
-      | .error e_ =>
-        (some (.error e_), alllms1)
-      | .ok points0 =>
-        let connectivity0 := (lmsdictgroup0).conn
-        let labelstomask0 := ([] : List (String × List Bool))
-        if ((((lmsdictgroup0).labels).length != (0))) then
-          let npoints0 := (points0).length
-          let r0 := MenpoModel.Py.forLoop (none, labelstomask0) ((lmsdictgroup0).labels) (fun acc1 it1 =>
-              if (acc1.1).isSome then acc1 else
-              let labelstomask1 := acc1.2
-              let label0 := it1
-              let mask0 := (List.replicate npoints0 false)
-              match (maskSet mask0 (label0).mask) with
-              | .error e_ =>
-                (some (.error e_), labelstomask1)
-              | .ok mask1 =>
-                let labelstomask0 := (odInsert labelstomask1 (label0).label mask1)
-                (none, labelstomask0))
-          let labelstomask1 := r0.2
-          match r0.1 with
-          | some v0 =>
-              (some (v0), alllms1)
-          | none =>
-            let graphcls0 := (if (PyX.truthy labelstomask1) then Cls.lpug else Cls.pug)
-            match (initFromEdges graphcls0 points0 connectivity0 labelstomask1) with
-            | .error e_ =>
-              (some (.error e_), alllms1)
-            | .ok tmp0 =>
-            let alllms0 := (dictSet alllms1 key0 tmp0)
-            (none, alllms0)
-        else
-          let graphcls0 := (if (PyX.truthy labelstomask0) then Cls.lpug else Cls.pug)
-          match (initFromEdges graphcls0 points0 connectivity0 labelstomask0) with
-          | .error e_ =>
-            (some (.error e_), alllms1)
-          | .ok tmp1 =>
-          let alllms0 := (dictSet alllms1 key0 tmp1)
-          (none, alllms0))
+      PyX.tryE ((genParseNull (lmsdictgroup0).points)) (fun points0 =>
+          let connectivity0 := (lmsdictgroup0).conn
+          let labelstomask0 := ([] : List (String × List Bool))
+          if ((((lmsdictgroup0).labels).length != (0))) then
+            let npoints0 := (points0).length
+            let r0 := MenpoModel.Py.forLoop (none, labelstomask0) ((lmsdictgroup0).labels) (fun acc1 it1 =>
+                if (acc1.1).isSome then acc1 else
+                let labelstomask1 := acc1.2
+                let label0 := it1
+                let mask0 := (List.replicate npoints0 false)
+                PyX.tryE ((maskSet mask0 (label0).mask)) (fun mask1 =>
+                    let labelstomask0 := (odInsert labelstomask1 (label0).label mask1)
+                    (none, labelstomask0))
+                  (fun e_ =>
+                    (some (.error e_), labelstomask1)))
+            let labelstomask1 := r0.2
+            match r0.1 with
+            | some v0 => (
+                (some (v0), alllms1))
+            | none =>
+              let graphcls0 := (if (PyX.truthy labelstomask1) then Cls.lpug else Cls.pug)
+              PyX.tryE ((initFromEdges graphcls0 points0 connectivity0 labelstomask1)) (fun tmp0 =>
+                  let alllms0 := (dictSet alllms1 key0 tmp0)
+                  (none, alllms0))
+                (fun e_ =>
+                  (some (.error e_), alllms1))
+          else
+            let graphcls0 := (if (PyX.truthy labelstomask0) then Cls.lpug else Cls.pug)
+            PyX.tryE ((initFromEdges graphcls0 points0 connectivity0 labelstomask0)) (fun tmp1 =>
+                let alllms0 := (dictSet alllms1 key0 tmp1)
+                (none, alllms0))
+              (fun e_ =>
+                (some (.error e_), alllms1)))
+        (fun e_ =>
+          (some (.error e_), alllms1)))
   let alllms1 := r0.2
   match r0.1 with
-  | some v0 =>
-      v0
+  | some v0 => (
+      v0)
   | none =>
     .ok (alllms1)
 
 def genParseV2 (lmsdict : JGroup) : Except Exc (List (String × Imported)) :=
-  ((genParseNull (lmsdict).points)).bind fun points0 =>
+  Except.bind ((genParseNull (lmsdict).points)) fun points0 =>
     let connectivity0 := (lmsdict).conn
     if ((connectivity0).isNone && ((((lmsdict).labels).length == (0)))) then
       let lmarks0 := (Imported.mk Cls.pc points0 [] [])
@@ -284,18 +278,17 @@ def genParseV2 (lmsdict : JGroup) : Except Exc (List (String × Imported)) :=
           let labelstomask1 := acc0.2
           let label0 := it0
           let mask0 := (List.replicate npoints0 false)
-          match (maskSet mask0 (label0).mask) with
-          | .error e_ =>
-            (some (.error e_), labelstomask1)
-          | .ok mask1 =>
-            let labelstomask0 := (odInsert labelstomask1 (label0).label mask1)
-            (none, labelstomask0))
+          PyX.tryE ((maskSet mask0 (label0).mask)) (fun mask1 =>
+              let labelstomask0 := (odInsert labelstomask1 (label0).label mask1)
+              (none, labelstomask0))
+            (fun e_ =>
+              (some (.error e_), labelstomask1)))
       let labelstomask1 := r0.2
       match r0.1 with
-      | some v0 =>
-          v0
+      | some v0 => (
+          v0)
       | none =>
-        ((initFromEdges Cls.lpug points0 connectivity0 labelstomask1)).bind fun lmarks0 =>
+        Except.bind ((initFromEdges Cls.lpug points0 connectivity0 labelstomask1)) fun lmarks0 =>
           .ok ([("LJSON", lmarks0)])
 
 def genParseV1 (lmsdict : List JV1Group) : Except Exc (List (String × Imported)) :=
@@ -340,7 +333,7 @@ def genParseV1 (lmsdict : List JV1Group) : Except Exc (List (String × Imported)
   let labels1 := r0.2.2.1
   let labelsslices1 := r0.2.2.2.1
   let offset1 := r0.2.2.2.2
-  ((genParseNull allpoints1)).bind fun points0 =>
+  Except.bind ((genParseNull allpoints1)) fun points0 =>
     let npoints0 := (points0).length
     let labelstomasks0 := ([] : List (String × List Bool))
     let r1 := MenpoModel.Py.forLoop labelstomasks0 ((List.zip labels1 labelsslices1)) (fun acc0 it0 =>
@@ -353,7 +346,7 @@ def genParseV1 (lmsdict : List JV1Group) : Except Exc (List (String × Imported)
         let labelstomasks0 := (odInsert labelstomasks1 label0 mask1)
         labelstomasks0)
     let labelstomasks1 := r1
-    ((initFromEdges Cls.lpug points0 (some connectivity1) labelstomasks1)).bind fun lmarks0 =>
+    Except.bind ((initFromEdges Cls.lpug points0 (some connectivity1) labelstomasks1)) fun lmarks0 =>
       .ok ([("LJSON", lmarks0)])
 
 def genNormalizePixels (pixels : PixArr) (erroronunknowntype : Bool) : Except Exc PixArr :=
